@@ -7,6 +7,8 @@ package session
 import (
 	"fmt"
 	"strconv"
+
+	"github.com/quickfixgo/quickfix"
 	"strings"
 	"testing"
 	"time"
@@ -36,7 +38,10 @@ type c01mon struct {
 }
 
 func (m *c01mon) observeT(s *sim, t int, where string) {
-	if m.pendingAdvance != 0 {
+	// the advance is due once the hand-over is complete: it is checked at the next inbound
+	// hand-over point or at the end of the step, not inside the callbacks of a reply (a Reject
+	// for a refused message is built before the number advances)
+	if m.pendingAdvance != 0 && !strings.HasPrefix(where, "inside To") && !strings.HasPrefix(where, "inside On") {
 		if t != m.pendingAdvance+1 {
 			vk.Violation(s.t, s.c, "C01/expected-number-not-advanced-by-one", "after delivering %d the expected number reads %d (%s)\n%s", m.pendingAdvance, t, where, s.history())
 		}
@@ -158,6 +163,20 @@ func c01Property(t *rapid.T) {
 	defer s.close()
 	mon := &c01mon{feat: map[string]bool{}, lastT: 1}
 	s.after = append(s.after, mon.after)
+	// the application refuses some messages (business reject): they were still handed over at
+	// their number, and the expected number still advances by one
+	refuseMod := rapid.SampledFrom([]int{0, 0, 3, 5}).Draw(t, "app-refuses-every")
+	s.r.FromAppErr = func(m *quickfix.Message) quickfix.MessageRejectError {
+		seq, _ := m.Header.GetInt(34)
+		if refuseMod != 0 && seq%refuseMod == 0 {
+			mon.feat["application-refused-a-message"] = true
+			if seq%2 == 0 {
+				return quickfix.NewBusinessMessageRejectError("refused by the application", 4, nil)
+			}
+			return quickfix.ConditionallyRequiredFieldMissing(quickfix.Tag(9999))
+		}
+		return nil
+	}
 	if !s.logon(rapid.SampledFrom([]int{0, 0, 1, 3}).Draw(t, "lost-before-logon")) {
 		t.Fatalf("harness: logon failed\n%s", s.history())
 	}
